@@ -6,7 +6,8 @@
 (* n(one) l(ist) d(ict); text = Python's str() of the value.  Home Assistant coerces a      *)
 (* state value to str, attributes keep their type:  Str(v) drops the tag.                   *)
 (* The world is  w = [h, snap, py, svc]:                                                    *)
-(*   h    : entity -> [v, a, lc, lu, lr]   HA's state machine (value, attribute pairs,      *)
+(*   h    : entity -> [v, a, lc, lu, lr]   HA's state machine (value, attribute pairs - the  *)
+(*          names may collide with the virtual fields, see Visible -,                      *)
 (*          last_changed / last_updated / last_reported as logical step numbers)            *)
 (*   snap : a captured snapshot (Python variable SNAP of the script) or NoSnap              *)
 (*   py   : domain -> [b, at]   the domain name is bound as a Python variable (an object    *)
@@ -42,7 +43,13 @@ HASet(s, v, a, now) ==
   ELSE [v |-> v, a |-> a, lc |-> IF s.v = v THEN s.lc ELSE now, lu |-> now, lr |-> now]
 
 \* ---- what the statement says about each entry point ----
-Snap(s, e) == [k |-> "state", v |-> s.v, a |-> s.a, id |-> e, lc |-> s.lc, lu |-> s.lu, lr |-> s.lr]
+\* An entity may have real attributes NAMED like the virtual fields (every group.* entity has an `entity_id`
+\* attribute; a script can write new_attributes={"last_changed": ...}).  They are ordinary attributes of HA's
+\* state machine (state.getattr / state.exist / writes / deletes see them), but on a snapshot and in
+\* DOMAIN.name.attr / state.get("DOMAIN.name.attr") the virtual field wins: the snapshot carries the
+\* attributes that are not shadowed (Visible) plus the four virtual fields.
+Visible(a) == { p \in a : p[1] \notin Virtual }
+Snap(s, e) == [k |-> "state", v |-> s.v, a |-> Visible(s.a), id |-> e, lc |-> s.lc, lu |-> s.lu, lr |-> s.lr]
 \* assignment: sets the value, keeps the attributes (creates the entity when missing)
 AssignSpec(s, v, now) == HASet(s, Str(v), s.a, now)
 \* attribute assignment / state.setattr: only that attribute
@@ -88,7 +95,9 @@ StateDelAttr(w, e, n, now) ==
 \*    state (a service cannot be assigned or deleted; attributes of Python objects are C01's),
 \*    except assignment / del under a Python variable (must go to the Python object);
 \*  - setting an attribute of a missing entity would be a state.set without value on a missing entity;
-\*  - virtual attributes are only read and tested, never written or deleted.
+\*  - the virtual FIELDS cannot be written; an attribute form with a virtual name (DOMAIN.e.entity_id = v,
+\*    state.setattr, del, state.delete) addresses the real attribute of that name like any other attribute
+\*    ("changes only that attribute"), it never touches the virtual field.
 \* (Deleting something that does not exist is generated: the state machine must stay as it is; the
 \*  class of the exception is not demanded by the statement - see StateVarsTrace!ResultOk.)
 Specified(w, op) ==
@@ -101,10 +110,9 @@ Specified(w, op) ==
     [] op.k = "snapfield" -> w.snap # NoSnap
     [] op.k = "touch" -> Has(w.h, op.e) /\ (op.how = "assign" => Resolve(w, op.e) = "state")
     [] op.k = "readattr" -> op.via = "get" \/ Resolve(w, op.e) = "state"
-    [] op.k = "assignattr" -> Resolve(w, op.e) = "state" /\ op.n \notin Virtual /\ Has(w.h, op.e)
-    [] op.k = "setattr" -> op.n \notin Virtual /\ Has(w.h, op.e)
-    [] op.k = "delattr" -> Resolve(w, op.e) = "state" /\ op.n \notin Virtual
-    [] op.k = "deleteattr" -> op.n \notin Virtual
+    [] op.k = "assignattr" -> Resolve(w, op.e) = "state" /\ Has(w.h, op.e)
+    [] op.k = "setattr" -> Has(w.h, op.e)
+    [] op.k = "delattr" -> Resolve(w, op.e) = "state"
     [] op.k = "unbindvar" -> w.py[op.d].b
     [] op.k = "checksnap" -> w.snap # NoSnap
     [] OTHER -> TRUE
